@@ -34,13 +34,15 @@ inductive LicenceFor (gh : Ghost) (files : List FileInfo) (dirs : List DirInfo) 
   /-- `write h data` on the open file `f`, `k` bytes stored, the chain growing to `cs'`: the FAT entries of the
   last cluster of the old chain and of the new clusters, the bytes `[offset, offset + k)` of the file -/
   | write (h : Nat) (data : Bytes) (f : FileInfo) (hf : f ∈ files) (hh : f.rawFile = h) (cs' : List Nat) (k : Nat)
-      (hpre : chainOf gh.G f.entry.cluster <+: cs') (hk : k ≤ data.length) (hin : ∀ c, c ∈ cs' → InRange gh.vol c) :
+      (hpre : chainOf gh.G f.entry.cluster <+: cs') (hk : k ≤ data.length) (hin : ∀ c, c ∈ cs' → InRange gh.vol c)
+      (hmode : f.mode ≠ .ReadOnly)
+      (hnew : ∀ c, c ∈ cs'.drop (chainOf gh.G f.entry.cluster).length → c ∉ gh.G.flatten) :
       LicenceFor gh files dirs d (.write h data) (writeLicence (chainOf gh.G f.entry.cluster) cs' f.currentOffset k)
-  /-- `flush h` of the open file `f`: its slot (and the info sector on FAT32) -/
-  | flush (h : Nat) (f : FileInfo) (hf : f ∈ files) (hh : f.rawFile = h) :
+  /-- `flush h` of the open file `f`, which was written to: its slot (and the info sector on FAT32) -/
+  | flush (h : Nat) (f : FileInfo) (hf : f ∈ files) (hh : f.rawFile = h) (hd : f.dirty = true) :
       LicenceFor gh files dirs d (.flush h) (flushLicence gh.vol f.entry)
   /-- `closeFile h`: the same -/
-  | closeFile (h : Nat) (f : FileInfo) (hf : f ∈ files) (hh : f.rawFile = h) :
+  | closeFile (h : Nat) (f : FileInfo) (hf : f ∈ files) (hh : f.rawFile = h) (hd : f.dirty = true) :
       LicenceFor gh files dirs d (.closeFile h) (flushLicence gh.vol f.entry)
   /-- `closeVolume`: the info sector on FAT32 -/
   | closeVolume (v : Nat) : LicenceFor gh files dirs d (.closeVolume v) (infoLicence gh.vol)
@@ -49,7 +51,7 @@ inductive LicenceFor (gh : Ghost) (files : List FileInfo) (dirs : List DirInfo) 
   | delete (dh : Nat) (name : List Nat) (sfn : Bytes) (dir : DirInfo) (o : Slot) (hdir : dir ∈ dirs)
       (hdh : dir.rawDirectory = dh) (hsfn : Sfn.createFromStr name = .ok sfn)
       (ho : o ∈ objects (dirIdOf dir.cluster) (dirSlots gh.vol d gh.G (dirIdOf dir.cluster)))
-      (hn : sName o = sfn) (hfile : isDirE o = false) :
+      (hn : sName o = sfn) (hfile : isDirE o = false) (hclosed : pendOf files o = none) :
       LicenceFor gh files dirs d (.delete dh name)
         { fatClusters := chainOf gh.G (sCluster gh.vol.fatType o), slots := [(o.1, o.2.1)] }
   /-- `openFile dh name mode` truncating the existing file object `o`: the same -/
@@ -57,12 +59,13 @@ inductive LicenceFor (gh : Ghost) (files : List FileInfo) (dirs : List DirInfo) 
       (hdh : dir.rawDirectory = dh) (hsfn : Sfn.createFromStr name = .ok sfn)
       (hm : mode = .ReadWriteTruncate ∨ mode = .ReadWriteCreateOrTruncate)
       (ho : o ∈ objects (dirIdOf dir.cluster) (dirSlots gh.vol d gh.G (dirIdOf dir.cluster)))
-      (hn : sName o = sfn) (hfile : isDirE o = false) :
+      (hn : sName o = sfn) (hfile : isDirE o = false) (hclosed : pendOf files o = none) :
       LicenceFor gh files dirs d (.openFile dh name mode)
         { fatClusters := chainOf gh.G (sCluster gh.vol.fatType o), slots := [(o.1, o.2.1)] }
   /-- `openFile` creating: one slot of a block of the directory -/
   | createSlot (dh : Nat) (name : List Nat) (mode : Mode) (dir : DirInfo) (hdir : dir ∈ dirs) (hdh : dir.rawDirectory = dh)
-      (b off : Nat) (hb : DirBlock gh.vol dir.cluster (dirChainOf gh dir.cluster) b) (ho : off + 32 ≤ 512) (hal : off % 32 = 0) :
+      (b off : Nat) (hb : DirBlock gh.vol dir.cluster (dirChainOf gh dir.cluster) b) (ho : off + 32 ≤ 512) (hal : off % 32 = 0)
+      (hfs : WriteSet.FreeAt d b off) :
       LicenceFor gh files dirs d (.openFile dh name mode) { slots := [(b, off)] }
   /-- `openFile` creating in a full chained directory: the free cluster `c` linked behind the directory's last -/
   | createGrow (dh : Nat) (name : List Nat) (mode : Mode) (dir : DirInfo) (hdir : dir ∈ dirs) (hdh : dir.rawDirectory = dh)
@@ -71,12 +74,13 @@ inductive LicenceFor (gh : Ghost) (files : List FileInfo) (dirs : List DirInfo) 
   /-- `mkdir`: the free cluster `cn` of the new directory and one slot of a block of the parent -/
   | mkdirSlot (dh : Nat) (name : List Nat) (dir : DirInfo) (hdir : dir ∈ dirs) (hdh : dir.rawDirectory = dh) (cn : Nat)
       (hrn : InRange gh.vol cn) (hfn : isFree gh.vol d cn) (b off : Nat)
-      (hb : DirBlock gh.vol dir.cluster (dirChainOf gh dir.cluster) b) (ho : off + 32 ≤ 512) (hal : off % 32 = 0) :
+      (hb : DirBlock gh.vol dir.cluster (dirChainOf gh dir.cluster) b) (ho : off + 32 ≤ 512) (hal : off % 32 = 0)
+      (hfs : WriteSet.FreeAt d b off) :
       LicenceFor gh files dirs d (.mkdir dh name) { fatClusters := [cn], dataClusters := [cn], slots := [(b, off)] }
   /-- `mkdir` into a full chained parent, which grows by the cluster `c` -/
   | mkdirGrow (dh : Nat) (name : List Nat) (dir : DirInfo) (hdir : dir ∈ dirs) (hdh : dir.rawDirectory = dh) (cn : Nat)
       (hrn : InRange gh.vol cn) (hfn : isFree gh.vol d cn) (last c : Nat)
-      (hl : (dirChainOf gh dir.cluster).getLast? = some last) (hr : InRange gh.vol c) :
+      (hl : (dirChainOf gh dir.cluster).getLast? = some last) (hr : InRange gh.vol c) (hfc : isFree gh.vol d c) :
       LicenceFor gh files dirs d (.mkdir dh name) { fatClusters := [cn, last, c], dataClusters := [cn, c] }
   /-- `mkdir` when the parent has no room: `cn` was taken and freed again -/
   | mkdirFull (dh : Nat) (name : List Nat) (cn : Nat) (hrn : InRange gh.vol cn) (hfn : isFree gh.vol d cn) :
@@ -165,7 +169,7 @@ theorem write_callOK {s : Mgr} {gh : Ghost} (hI : VolInv s gh) (hm : Mirror gh.v
       have hmok : WriteRefines.MOK s := by
         show _ ∧ _ ∧ _ ∧ _
         exact ⟨hI.noFault, hI.coherent, hI.med.blocksOK, hI.unlocked⟩
-      obtain ⟨k, r, s', f', v', cs', hrun, hk, _, _, _, hsg, _, hok', _, hpre, _, _, _, _, _, _, hmir', hlic⟩ :=
+      obtain ⟨k, r, s', f', v', cs', hrun, hk, _, _, _, hsg, _, hok', _, hpre, hown', _, _, _, _, _, hmir', hlic⟩ :=
         WriteSet.write_lic s file i 0 data f vi cs A B hmok hidx hf hvfind hvi hmode (by rw [hvol]; exact hI.med.geom)
           (by rw [hvol]; exact hI.med.hint) (by rw [hvol]; exact hok) hcur (by rw [hvol, ← hGeq]; exact hI.med.owns)
           (by rw [hvol]; exact hm)
@@ -174,7 +178,31 @@ theorem write_callOK {s : Mgr} {gh : Ghost} (hI : VolInv s gh) (hm : Mirror gh.v
       refine ⟨_, ?_, hlic, (hsg.mirror _).1 hmir'⟩
       have hrf : f.rawFile = file := by simpa using hpf
       have := LicenceFor.write (gh := gh) (files := s.files) (dirs := s.dirs) (d := s.dev.disk) file data f hfm hrf cs' k
-        (by rw [hcsdef]; exact hpre) hk (fun c hc => (hsg.inRange c).1 (WriteRefines.fileOK_inRange hok' c hc))
+        (by rw [hcsdef]; exact hpre) hk (fun c hc => (hsg.inRange c).1 (WriteRefines.fileOK_inRange hok' c hc)) hmode
+        (by
+          rw [hcsdef, hGeq]
+          intro c hc
+          obtain ⟨t, ht⟩ := hpre
+          have hdrop : cs'.drop cs.length = t := by rw [← ht, List.drop_left]
+          rw [hdrop] at hc
+          have hnd : (withChain A cs' B).flatten.Nodup := hown'.2.1
+          have hcs' : cs' ≠ [] := by rw [← ht]; intro e; rw [List.append_eq_nil_iff] at e; rw [e.2] at hc; cases hc
+          rw [WriteRefines.withChain_ne hcs', ← ht] at hnd
+          simp only [List.flatten_append, List.flatten_cons, List.flatten_nil, List.append_nil, List.append_assoc] at hnd
+          rw [List.nodup_append] at hnd
+          obtain ⟨_, hnd2, hAdis⟩ := hnd
+          rw [List.nodup_append] at hnd2
+          obtain ⟨_, hnd3, hcsdis⟩ := hnd2
+          rw [List.nodup_append] at hnd3
+          obtain ⟨_, _, htB⟩ := hnd3
+          unfold withChain
+          simp only [List.flatten_append, List.mem_append, not_or]
+          refine ⟨⟨fun hA => hAdis c hA c (List.mem_append_right _ (List.mem_append_left _ hc)) rfl, ?_⟩,
+            fun hB => htB c hc c hB rfl⟩
+          split
+          · simp
+          · simp only [List.flatten_cons, List.flatten_nil, List.append_nil]
+            exact fun h1 => hcsdis c h1 c (List.mem_append_left _ hc) rfl)
       rw [hcsdef] at this
       exact this
 
@@ -212,8 +240,12 @@ theorem flush_callOK {s : Mgr} {gh : Ghost} (hI : VolInv s gh) (hm : Mirror gh.v
         exact ⟨s, WriteSet.flushFile_clean_nowrite s file i f hidx hf hd', rfl, LicD.refl _ _ _, hm⟩
     obtain ⟨s1, hrun, hfiles, hl, hm1⟩ := key
     refine ⟨?_, fun i' f' hi' hf' => ?_⟩
-    · rw [hrun]
-      exact ⟨_, .flush file f hfm hrf, hl, hm1⟩
+    · by_cases hd : f.dirty = true
+      · rw [hrun]
+        exact ⟨_, .flush file f hfm hrf hd, hl, hm1⟩
+      · have hd' : f.dirty = false := by simpa using hd
+        rw [WriteSet.flushFile_clean_nowrite s file i f hidx hf hd']
+        exact callOK_nowrite _ hm rfl rfl
     · cases hi'
       rw [hf] at hf'
       cases hf'
@@ -237,8 +269,13 @@ theorem closeFile_callOK {s : Mgr} {gh : Ghost} (hI : VolInv s gh) (hm : Mirror 
     have hfm : f ∈ s.files := List.mem_of_getElem? hf
     have hrf : f.rawFile = file := by simpa using hpf
     obtain ⟨s1, hrun, hfiles, hl, hm1⟩ := (flush_callOK hI hm file).2 i f hidx hf
-    rw [WriteSet.closeFile_of_flush s s1 file i hidx hrun hfiles]
-    exact ⟨_, .closeFile file f hfm hrf, hl, hm1⟩
+    by_cases hd : f.dirty = true
+    · rw [WriteSet.closeFile_of_flush s s1 file i hidx hrun hfiles]
+      exact ⟨_, .closeFile file f hfm hrf hd, hl, hm1⟩
+    · have hd' : f.dirty = false := by simpa using hd
+      have hcl := WriteSet.flushFile_clean_nowrite s file i f hidx hf hd'
+      rw [WriteSet.closeFile_of_flush s s file i hidx hcl rfl]
+      exact callOK_nowrite _ hm rfl rfl
 
 /-! ### `close_volume` -/
 
